@@ -42,10 +42,12 @@ pub fn eq_all_routes(a: &Value, b: &Value, want: Option<bool>, obs: &mut Obs) ->
     }
     // public helpers on distinct instances
     let (a2, b2) = (a.clone(), b.clone());
-    let h = crate::imp::guarded(|| (jsonlogic_rs::js_op::abstract_eq(&a2, &b2), jsonlogic_rs::js_op::abstract_ne(&a2, &b2))).map_err(|m| format!("js_op::abstract_eq/ne panicked ({}) on {} , {}", m, a, b))?;
+    let h = crate::imp::guarded(|| crate::helpers::abstract_eq_ne(&a2, &b2)).map_err(|m| format!("js_op::abstract_eq/ne panicked ({}) on {} , {}", m, a, b))?;
     obs.evals += 2;
-    if h.0 != got || h.1 == got {
-        return Err(format!("js_op::abstract_eq/ne ({}, {}) disagree with the operator ({}) on {} , {}", h.0, h.1, got, a, b));
+    if let Some(h) = h {
+        if h.0 != got || h.1 == got {
+            return Err(format!("js_op::abstract_eq/ne ({}, {}) disagree with the operator ({}) on {} , {}", h.0, h.1, got, a, b));
+        }
     }
     Ok(got)
 }
